@@ -418,7 +418,8 @@ DensityDividedByGrowth == Expanded =>
 ComponentHeightIsGrowthTimesBlock == Expanded => \A x \in SolidIx : comp[x[1]][x[2]].h = RMul(lg[x[1]][x[2]], pre.h[x[1]])
 MassAccounting == Expanded =>
     \A x \in SolidIx : LET b == x[1]  i == x[2] IN
-        RMul(MassOf(b, i), RMul(lg[b][i], pre.h[b])) = RMul(PreMassOf(b, i), h[b])
+        \* written as mass'/h' = (mass/h)/g: the same law, but every intermediate stays small (32-bit integers)
+        (h[b] # RZero /\ pre.h[b] # RZero) => RDiv(MassOf(b, i), h[b]) = RDiv(RDiv(PreMassOf(b, i), pre.h[b]), lg[b][i])
 AlignedTargetMassConserved == Expanded =>
     \A b \in 1..K : LET t == tname[b] IN (comp[b][t].zb = zb[b]) <=> (MassOf(b, t) = PreMassOf(b, t))
 UniformAssemblyMassConserved == (Expanded /\ \A b \in 1..K : UniformBlock(lg, b)) =>
@@ -429,7 +430,10 @@ RoundTripRestores ==
         /\ zb = pre2.zb /\ zt = pre2.zt /\ h = pre2.h
         /\ \A x \in SolidIx : comp[x[1]][x[2]].lin = pre2.lin[x[1]][x[2]]
         /\ \A x \in SolidIx : MassOf(x[1], x[2]) = RMul(pre2.lin[x[1]][x[2]], pre2.h[x[1]])
-        /\ (act.n = "Thermal" /\ ~act.fromInput => \A x \in SolidIx : comp[x[1]][x[2]].T = pre2.T[x[1]][x[2]])
+        \* two thermal calls relative to the current temperatures that undo each other end at the starting temperatures
+        /\ (LET p == path[Len(path) - 1] IN
+              act.n = "Thermal" /\ ~act.fromInput /\ p.n = "Thermal" /\ ~p.fromInput)
+              => \A x \in SolidIx : comp[x[1]][x[2]].T = pre2.T[x[1]][x[2]]
 RefusalsChangeNothing == Refused =>
     /\ zb = pre.zb /\ zt = pre.zt /\ h = pre.h /\ mesh = pre.mesh
     /\ \A b \in 1..NBk : \A i \in 1..NC(b) : comp[b][i].lin = pre.lin[b][i]
